@@ -58,10 +58,13 @@ HOSTILE = [
     "if a:  # c0\n    s = '''l1\n  l2\n        l3'''  # c1\nelif b:  # c2\n    t = f'''m1\n  {x}\n    {''.join(f'<{y}>' for y in z)}\n m3'''  # c3\n"
     "    u = 0  # c4\ndef f():  # c5\n    v = \"\"\"n1\nn2\"\"\"  # c6\n    return v  # c7",
     "if a:\n    pass\nelif b:\n    w = f'''{\n1}\n  {f'{2}'}\n{f'''\n {3}\n'''}\n    e'''\n    x = '\\\n  c\\\nd'\nfor i in j:\n    y = f'''\n  {i}\n{f'{i}'}\n'''",
+    # nested block first in a def (its extent is computed - and cached - while the tree is built), last statement commented
+    "def f(x):  # c0\n    if x:  # c1\n        g(x)  # c2\n        a = h(x)  # c3\n    b = 2  # c4\n    return b  # c5",
 ]
 for _p in HOSTILE:
     ast.parse(_p)
 PROGS = COMMENTED + [PROGRAMS[i] for i in (11, 20, 21, 22, 23, 24, 25, 26, 27, 28, 37, 38)] + HOSTILE
+LC_PROGS = list(range(len(COMMENTED))) + list(range(len(PROGS) - len(HOSTILE), len(PROGS)))
 
 OPTS = [{}, {'trivia': False}, {'trivia': 'all'}, {'trivia': ('all', 'all')}, {'trivia': 'block+1'}, {'trivia': ('none', 'none')},
         {'pep8space': False}, {'elif_': False}, {'docstr': False}]
@@ -295,6 +298,25 @@ def allowed(src, tree, op):
                     m = re.search(r'#.*$', lines[ln - 1])
                     if m:
                         coms_ok.add(m.group(0).strip())
+    elif k == 'put_line_comment':
+        st = O.get_path(tree, path)
+        if not isinstance(st, ast.stmt):
+            return None
+        a, b = header_span(st)
+        fld = op.get('field')
+        if fld:  # the comment of the 'else:' / 'finally:' line of that field
+            first = getattr(st, fld)[0].lineno
+            a = first
+            while a >= 1 and not re.match(r'\s*(else|finally)\b', lines[a - 1]):
+                a -= 1
+            b = a
+        elif b > a or isinstance(getattr(st, 'body', None), list):
+            pass  # block statement: the comment lives on the last header line
+        lines_ok |= set(range(a, b + 1))
+        for ln in range(a, b + 1):
+            m = re.search(r'#.*$', lines[ln - 1])
+            if m:
+                coms_ok.add(m.group(0).strip())  # the comment that is replaced / deleted
     else:
         return None
     return {x - 1 for x in lines_ok}, coms_ok
@@ -367,6 +389,8 @@ def token_expectation(src, tree, op):
             a = b = start(lst[i])
         else:
             a = b = end(lst[-1])
+    elif k == 'put_line_comment':
+        return ('exact', [t[0] for t in old])
     else:
         return None
     pre = [t[0] for t in old if t[2] <= a]
@@ -402,6 +426,40 @@ def prepare(src, op):
             else:
                 op.update(op='put_slice', start=at, stop=at)
     return tree, op
+
+
+def classify_loss(src, tree, op, lost):
+    """Input-side description of a comment loss, for the known-finding selectors: is the request a zero-length insertion into
+    an expression-level sequence and do all lost comments sit in the gap the insertion goes into (from the line the previous
+    element ends on to the line the next element / the closing delimiter starts on)?  Or the else -> elif rewriting?"""
+    out = {}
+    k = op['op']
+    path = tuple(tuple(x) for x in op['path'])
+    try:
+        if k in ('insert', 'put_slice'):
+            par = O.get_path(tree, path)
+            lst = getattr(par, op['field'])
+            i = op.get('start', op.get('idx'))
+            j = op.get('stop', i)
+            if i == j and not (lst and isinstance(lst[0], (ast.stmt, ast.excepthandler, ast.match_case))) and hasattr(par, 'lineno') \
+                    and op['field'] not in ('body', 'orelse', 'finalbody', 'handlers', 'cases'):
+                lo = lst[i - 1].end_lineno if i > 0 else par.lineno
+                hi = lst[i].lineno if i < len(lst) else par.end_lineno
+                where = {}
+                for t in O.tokens(src) or []:
+                    if t.type == tokenize.COMMENT:
+                        where.setdefault(t.string, []).append(t.start[0])
+                out['zero_len_exprseq_insert'] = True
+                out['lost_only_in_insertion_gap'] = all(any(lo <= ln <= hi for ln in where.get(c, [])) for c in lost)
+        elif k == 'replace' and path and path[-1][0] == 'orelse':
+            par = O.get_path(tree, path[:-1])
+            code0 = (op.get('code') or [None])[0]
+            if isinstance(par, ast.If) and len(par.orelse) == 1 and (op.get('opts') or {}).get('elif_', True) and \
+                    isinstance(code0, str) and code0.lstrip().startswith('if '):
+                out['else_to_elif_replace'] = True
+    except Exception:  # noqa: BLE001  (classification only; an unclassified loss is simply a VIOLATION)
+        pass
+    return out
 
 
 def check_transition(src, new, op, res, cid, rep, params):
@@ -472,6 +530,7 @@ def check_transition(src, new, op, res, cid, rep, params):
             except ValueError:
                 really.append(i)
         if really:
+            params = dict(params, **classify_loss(src, tree, op, []))
             res.fail(cid, 'line-outside-edited-element-changed',
                      f'pre={src!r}\nnew={new!r}\nrequest={E.op_id(op)}\nchanged old lines outside the allowed region: '
                      + '; '.join(f'{i}:{old_l[i]!r}' for i in really[:4]), params, rep, E.render(rep['src'], rep['hist']))
@@ -482,9 +541,12 @@ def check_transition(src, new, op, res, cid, rep, params):
         code = op.get('code') or [None]
         cnew = comments_of(code[0]) if isinstance(code[0], str) else collections.Counter()
         cnew = cnew or collections.Counter()
+        if op['op'] == 'put_line_comment' and op.get('text') is not None:
+            cnew = collections.Counter(['# ' + op['text']])
         lost = c0 - c1
         bad_lost = [c for c in lost if c.strip() not in coms_ok]
         if bad_lost:
+            params = dict(params, **classify_loss(src, tree, op, bad_lost))
             res.fail(cid, 'comment-lost', f'pre={src!r}\nnew={new!r}\nrequest={E.op_id(op)}\nlost={bad_lost} (permitted by trivia: {sorted(coms_ok)})',
                      params, rep, E.render(rep['src'], rep['hist']))
             return False
@@ -504,6 +566,8 @@ def check_transition(src, new, op, res, cid, rep, params):
 
 def shards(tier):
     out = [{'prog': i, 'oi': oi, 'depth': 1} for i in range(len(PROGS)) for oi in range(len(OPTS))]
+    # a comment rewritten in place (no node moves) followed by every edit: stale extents of enclosing blocks show up here
+    out += [{'prog': i, 'oi': 0, 'depth': 2, 'lc_first': True} for i in LC_PROGS]
     if tier == 'thorough':
         out += [{'prog': i, 'oi': 0, 'depth': 2, 'part': [r, 4]} for i in range(len(COMMENTED)) for r in range(4)]
     return out
@@ -515,6 +579,8 @@ def run_shard(desc, tier, res):
     opt = OPTS[desc['oi']]
     a1 = dict(nk=2 if tier == 'quick' else 4, nks=2, forms=('src',) if tier == 'quick' else ('src', 'ast', 'fst'), opts=(opt,), kinds=KINDS)
     a2 = dict(nk=1, nks=1, forms=('src',), opts=(opt,), kinds=KINDS)
+    if desc.get('lc_first'):
+        a1 = dict(nk=1, nks=1, forms=('src',), opts=(opt,), kinds=('line_comment',), lc_texts=('a much longer comment text', 'q', None))
 
     def on_state(root, pre, hist, cid, c2):
         op = hist[-1]
